@@ -115,7 +115,7 @@ def instances(  # pylint: disable=too-many-arguments,too-many-locals
         # many short jobs on many machines: job ids and machine ids >= 10
         # (two-digit ids), more entities than any other family has
         n_j = draw(st.integers(10, 12))
-        n_m = draw(st.integers(11, 13))
+        n_m = 13
         is_flex = draw(st.booleans()) if flexible is None else flexible
         budget = max_total
         lengths = []
@@ -125,7 +125,9 @@ def instances(  # pylint: disable=too-many-arguments,too-many-locals
             ln = 1 if regular else draw(st.integers(1, hi))
             lengths.append(ln)
             budget -= ln
-        high = st.integers(0, n_m - 1).map(lambda m, n_m=n_m: n_m - 1 - m)  # favours the highest ids
+        # machine ids 12, 11, 10 and 2, 1, 0 (ids in between stay unused):
+        # one- and two-digit ids side by side, as operation ids are
+        high = st.integers(0, 5).map(lambda m: [12, 2, 11, 1, 10, 0][m])
         one = high.map(lambda m: [m])
         mach = st.one_of(one, st.lists(high, min_size=2, max_size=3, unique=True)) if is_flex else one
         machines = [[draw(mach) for _ in range(ln)] for ln in lengths]
